@@ -175,48 +175,65 @@ PROPS = {
         "lean": "Props.C20",
         "domains": [{"name": "remote", "timeout": 3000}],
         "cli": True,
-        "trusted": ["the harness's loopback HTTP server (per-URL behaviour), pseudo-terminal (typed-ahead answer; for chains a responder that "
-                    "answers each prompt by the URL it names) and cache-file normalisation (harness/remote.go); "
+        "trusted": ["the harness's loopback servers (plain http and TLS with a certificate generated per run and handed to the binary as "
+                    "SSL_CERT_FILE; per-URL behaviour; a listener that never answers for the git node), pseudo-terminal (typed-ahead "
+                    "answer; for chains and trees a responder that answers each prompt by the URL it names), cache-file normalisation "
+                    "and the simulated damage / torn states (files written directly; the failure of the last cache write is REAL: the "
+                    "binary runs under a 512-byte file-size limit) (harness/remote.go); "
                     "SHA-256 collision resistance turns 'approved checksum' into 'approved content' (sha is uninterpreted in the model); "
                     "net/http fails a request at once when its context's deadline has passed (Chain.net2: observed on every chain case "
-                    "in which node 1 stalls, not derived); "
+                    "in which node 1 stalls, not derived) and applies the client's CheckRedirect to every hop (observed on the TLS URL); "
                     "cache keys are injective in the URL up to SHA-256 collisions (Tie.remote_cacheKey_ok pins that the whole location "
                     "string is hashed; the model indexes cache entries by abstract URL ids); "
-                    "the TLS handshake, redirects and git nodes are not exercised"],
-        "assumptions": ["per invocation a chain of at most two remote Taskfiles: node 1 (root entrypoint or the single remote include of a local root) "
-                        "and, if node 1's content includes one remote Taskfile, that one (node 2, whose own content includes nothing remote); "
-                        "http(s) nodes only; sibling remote includes (read concurrently) and deeper chains are not modelled",
-                        "shared deadline: only a fetch that stalls past --timeout uses up the invocation's time budget; cache reads, refused "
-                        "connections, HTTP errors, downloads and (typed-ahead / immediately answered) prompts take no time, and a 'patient' "
-                        "--timeout (10s) exceeds the summed delays of the slow servers of one invocation",
-                        "no crash between the three cache writes, cache files changed by Task only (plus ageing of timestamps by the harness)",
+                    "git nodes are exercised only against a server that never answers (no git server offline): their cache, prompt and "
+                    "content path is the shared readRemoteNodeContent (Tie.remote_readNodeContent_ok), their clone itself is go-git's"],
+        "assumptions": ["per invocation a tree of remote Taskfiles in which no URL is reached along two paths (a diamond is read once by the "
+                        "code and once per path by the model); the chain theorems are for chains of two, the tree theorems (trust, frame, "
+                        "all-or-nothing) for any depth and any number of sibling includes; http(s) nodes (git: see trusted)",
+                        "shared deadline: only a fetch that stalls past --timeout uses up the invocation's time budget, and only for the "
+                        "nodes below it (siblings are read concurrently); cache reads, refused connections, HTTP errors, downloads and "
+                        "(typed-ahead / immediately answered) prompts take no time, and a 'patient' --timeout (10s) exceeds the summed "
+                        "delays of the slow servers of one invocation",
+                        "the checksum file is written by Task only (the .yaml may be replaced, truncated or removed by anything, an "
+                        "invocation may be killed between any two of its cache writes: both are events of the histories the theorems "
+                        "quantify over)",
                         "the wall clock is monotone and an invocation takes less than the 1h expiry used"],
-        "level_text": "Theorems (all histories of invocations x server states x answers, any checksum function): content is handed on for "
-                      "execution only with the approved checksum; the approved checksum changes only under --yes or an accepted prompt in "
-                      "the same invocation; unapproved new/changed content = 104, nothing run, cache untouched; http without --insecure = 105 "
-                      "before any cache or network access; --offline and any failed fetch (refused, HTTP error, timeout) run the approved "
-                      "cached copy (repaired rule, fix F16; the rule as written is shown not to). The same lifted to CHAINS (Remote.Chain: "
-                      "remote A includes remote B, each with its own cache entry, trust state, server behaviour and prompt answer, both read "
-                      "by the per-node readRemote under the ONE --timeout deadline of the invocation; any `inc`, any `sha`, all chain "
-                      "histories): C20_chain_trust (content of either node runs only with the checksum approved for its URL; cache files of "
-                      "either node are written only after trust - chain_write_spec; unapproved content of node 2 = 104 and node 1's content "
-                      "does not run either), C20_chain_offline / _offline_no_network (outcome independent of both servers and answers), "
-                      "C20_chain_available / _available_node2 / _deadline (a node with a cached copy yields it whenever its fetch fails for "
-                      "any network reason, INCLUDING a shared deadline already used up by node 1's stalled fetch - whatever node 2's server "
-                      "would have done), C20_chain_extends (no include = the single-node model). Tie: regenerated control skeletons of "
-                      "readRemoteNodeContent and 11 neighbouring functions must equal the ones the model mirrors, plus cacheBeforeCtx (the "
-                      "cache is read and returned before ctx is first looked at), ctxFlow (the context given to Reader.Read is handed down "
-                      "unchanged to every node read) and ctxMakers (the only deadline is made in readTaskfile), and cacheKey / httpLocation / cacheFilePath / checksumFn / "
-                      "httpResolveEntrypoint (the cache files of an http node are named by the SHA-256 of the WHOLE URL string - scheme, "
-                      "host, path, query, as given - so the model's per-URL entries are the code's); local variables in all these facts are "
-                      "scope-resolved placeholders (renames do not change them). The harness uses, besides two paths and an https URL, URLs "
-                      "that differ from the first only in the query, in letter case, in a doubled slash (own content each, one cache "
-                      "directory per sequence; chains A->B with A, B differing only in the query), so a shared cache entry shows as foreign "
-                      "content, a false prompt or a missing entry; the real binary is run "
-                      "against a loopback server over generated sequences and must equal Remote.invoke / Chain.invokeChain step by step "
-                      "(exit code, versions of A and B run, cache files of every URL), with a direct trust monitor for both nodes.",
-        "level_note": "Trusted: Lean kernel; harness server/pty/normalisation; extractor. Not modelled: git nodes, TLS, redirects, crash between cache writes, "
-                      "sibling remote includes and chains deeper than two, time spent at a prompt counting against --timeout.",
+        "level_text": "Theorems (every state, hence all histories of invocations x server states x answers x crashes between the cache "
+                      "writes x damage to cached copies; any checksum function): content is handed on for execution only with the "
+                      "stored checksum - a cached copy is used only if its recomputed checksum is the stored one (usable; fix R8-3), so "
+                      "no invariant between the cache files is needed any more (C20_trust, TrustStep in every state) -, and the stored "
+                      "checksum was put there by an invocation, complete or killed, in which a prompt for exactly that checksum was "
+                      "accepted or passed by --yes (ApprovedNow, C20_sum_approved, end to end: C20_trust_history; the rule without the "
+                      "recheck: C20_trust_norecheck_counterexample; an invocation whose .yaml write fails IS crash+damage: stateL_expand, "
+                      "C20_trust_limited); unapproved new/changed content = 104, trace empty, cache untouched; "
+                      "plain http without --insecure = 105 before any cache or network access, and EVERY hop of a chain of redirects is "
+                      "https unless --insecure (C20_http_hops; a refused hop gives no content: C20_http_hop_refused; fix R8-1); "
+                      "--offline and any failed fetch (refused, HTTP error, refused redirect, timeout) run the usable cached copy "
+                      "(repaired rule F16; the rule as written is shown not to). CHAINS (Remote.Chain: remote A includes remote B, own "
+                      "cache entry, trust state, server and answer each, ONE --timeout deadline): C20_chain_trust, "
+                      "C20_chain_offline / _offline_no_network, C20_chain_available / _node2 / _deadline, C20_chain_extends - with the "
+                      "include resolved against the location STORED with A's copy (inc : Content -> Url -> Option Url, baseOf; fix R8-2): "
+                      "C20_chain_same_nodes (what ran online as A+B runs as the same A+B from the cache - offline or with both servers "
+                      "down -, also when A is a directory-style URL found under a default name and B a relative include). TREES "
+                      "(Remote.Tree: any number of sibling includes, any depth): C20_tree_trust (every node that ran has the checksum "
+                      "stored for its URL, approved before or by that node's own passed prompt), C20_tree_frame, "
+                      "C20_tree_error_runs_nothing (one failing node anywhere = nothing executed). Tie: regenerated control skeletons of "
+                      "readRemoteNodeContent and 20 neighbouring functions must equal the ones the model mirrors - incl. RemoteExists "
+                      "(default-name probe: only the status of a default name is looked at; ctx.Err() after every request, fix R8-6), "
+                      "HTTPNode.client (CheckRedirect), httpDoers / httpDefaultClientUses (every request of package taskfile goes through "
+                      "that client, nothing mentions http.DefaultClient), readContextUses (every node's ReadContext uses its context: "
+                      "the git node clones with CloneContext, fix R8-4), newGitNode (http AND git:// refused without --insecure, fix "
+                      "R8-5), the location writers/readers - plus cacheBeforeCtx, ctxFlow, ctxMakers, cacheKey / httpLocation / "
+                      "cacheFilePath / checksumFn / httpResolveEntrypoint; local variables in all these facts are scope-resolved "
+                      "placeholders. The harness runs the real binary against loopback servers (http, TLS, black hole) over generated "
+                      "sequences - ten URLs incl. query / case / slash variants, a TLS URL that redirects to http or https, a directory "
+                      "URL with three default names and its relative include, damaged and torn cache entries, chains, sibling includes "
+                      "and chains of three, a git node whose server never answers - and must equal Remote.invoke / Chain.invokeChain / "
+                      "Tree.invokeTree step by step (exit code, trace of versions run, cache files and stored location of every URL), with "
+                      "a direct trust monitor for every node.",
+        "level_note": "Trusted: Lean kernel; harness servers/pty/normalisation; extractor. Not modelled: the git clone itself, diamonds "
+                      "(a Taskfile included along two paths), time spent at a prompt counting against --timeout, caches written before "
+                      "the .location file existed when the GET (not the probe) fails.",
     },
     "C19": {
         "lean": "Props.C19",
